@@ -23,7 +23,7 @@ import (
 )
 
 // apiRule describes the second part of the case list.
-const apiRule = "PEER-STATE API FAMILY (scenarios after the main list): application goroutines call the public peer-state API of the complete client (ConnectedCount, Peers, PeerByAddr, AddedNodeInfo, OutboundGroupCount, ForAllPeers, ConnectedPeers, ConnectNode with connected / spare / never-seen addresses and with host names, RemoveNodeByAddr/ByID, DisconnectNodeByAddr/ByID, BanPeer, UnbanPeer, IsBanned) from shortly before Stop is called until it has returned, at a stop state of the main list (17 of them, rotated by seed). The harness supplies Config.NameResolver: the lookup of one designated call (ConnectNode(host) / ConnectNode(new address) / UnbanPeer(new address), permanent or not) is held INSIDE the client's peer handler when Stop is called and answers 0-400 ms after Stop was CALLED with a reachable peer / an unreachable address / an error / no address; other variants: callers only (6-16), or slow lookups (up to 2-31 ms each) without a gate. j=0 and j=1 are fixed (ConnectNode(\"some.host:18444\", permanent) resolving, Stop, answer 300 ms later; the same through UnbanPeer with 6 pollers). ORACLE: the one of the main list (Stop returns, counted from the release of what the harness holds; every call in flight, the callers and the designated call included, returns; a sweep of one call of every operation made after Stop returned returns; the directory reopens); nothing is asserted about the VALUES the peer-state calls return (their signatures carry no shutdown error)"
+const apiRule = "PEER-STATE API FAMILY (scenarios after the main list): application goroutines call the public peer-state API of the complete client (ConnectedCount, Peers, PeerByAddr, AddedNodeInfo, OutboundGroupCount, ForAllPeers, ConnectedPeers, ConnectNode with connected / spare / never-seen addresses and with host names, RemoveNodeByAddr/ByID, DisconnectNodeByAddr/ByID, BanPeer, UnbanPeer, IsBanned) from shortly before Stop is called until it has returned, at a stop state of the main list (17 of them, rotated by seed). The harness supplies Config.NameResolver: the lookup of one designated call (ConnectNode(host) / ConnectNode(new address) / UnbanPeer(new address), permanent or not) is held INSIDE the client's peer handler when Stop is called and answers 0-400 ms after Stop was CALLED with a reachable peer / an unreachable address / an error / no address; other variants: callers only (6-16), or slow lookups (up to 2-31 ms each) without a gate. j=0 and j=1 are fixed (ConnectNode(\"some.host:18444\", permanent) resolving, Stop, answer 300 ms later; the same through UnbanPeer with 6 pollers); j=2 is one more fixed scenario of the main kind kept here so that the main list keeps its numbering (GetCFilter fetching and persisting filters without pause while Stop waits for a broadcast no peer reacts to). ORACLE: the one of the main list (Stop returns, counted from the release of what the harness holds; every call in flight, the callers and the designated call included, returns; a sweep of one call of every operation made after Stop returned returns; the directory reopens); nothing is asserted about the VALUES the peer-state calls return (their signatures carry no shutdown error)"
 
 func main() {
 	one := flag.Int("one", -1, "debug: run this scenario in-process and print its result")
@@ -31,7 +31,7 @@ func main() {
 	r := evid.New("C17", "exploration")
 	// Case list: scenarios 0..nMain-1 are the main list, nMain..nMain+nAPI-1
 	// the peer-state API family (scenario j = k-nMain of c17.APIScenario).
-	nMain, nAPI := r.Pick(36, 2500), r.Pick(10, 300)
+	nMain, nAPI := r.Pick(36, 2500), r.Pick(11, 300)
 	scenario := func(seed int64, k int, res *l2.Result) {
 		if k >= nMain {
 			c17.APIScenario(seed, k-nMain, res)
